@@ -31,6 +31,8 @@ type applyRec struct {
 	OK bool
 }
 
+var probeKeeper govkeeper.Keeper
+
 var (
 	inEnd      bool
 	applyLog   []applyRec
@@ -44,7 +46,17 @@ type logged struct{ h govtypes.ProposalHandler }
 
 func (l logged) ProposalType() string { return l.h.ProposalType() }
 func (l logged) Apply(ctx sdk.Context, id uint64, c govtypes.Content, slash sdk.Dec) error {
+	// probe for the router's cache discipline: a registry upsert with hash "h9" fails AFTER the real
+	// handler wrote, when key "k4" was present before (so the dry run at submission can succeed and
+	// the enactment can fail once another proposal has created k4)
+	probeFail := false
+	if p, ok := c.(*govtypes.UpsertDataRegistryProposal); ok && p.Hash == "h9" {
+		_, probeFail = probeKeeper.GetDataRegistryEntry(ctx, "k4")
+	}
 	err := l.h.Apply(ctx, id, c, slash)
+	if err == nil && probeFail {
+		err = fmt.Errorf("probe: failing after write")
+	}
 	if inEnd {
 		applyLog = append(applyLog, applyRec{id, err == nil})
 	}
@@ -289,6 +301,7 @@ func main() {
 	app := hx.NewApp()
 	base := hx.Ctx(app, 1, 1000)
 	k := app.CustomGovKeeper
+	probeKeeper = k
 	k.SetProposalRouter(govtypes.NewProposalRouter([]govtypes.ProposalHandler{
 		logged{gov.NewApplySetNetworkPropertyProposalHandler(k)},
 		logged{gov.NewApplyUpsertDataRegistryProposalHandler(k)},
@@ -521,9 +534,17 @@ func main() {
 					v = []string{"1", "2", "3"}[r.Intn(3)]
 				}
 				return &content{Kind: "setprop", A: pid, B: v}
-			case 3, 4:
-				return &content{Kind: "registry", A: int64(1 + r.Intn(4)), B: strconv.Itoa(1 + r.Intn(9))}
-			case 5, 6:
+			case 3, 4, 5:
+				hash := 1 + r.Intn(9)
+				if r.Chance(45) {
+					hash = 9
+				}
+				key := 1 + r.Intn(4)
+				if r.Chance(35) {
+					key = 4
+				}
+				return &content{Kind: "registry", A: int64(key), B: strconv.Itoa(hash)}
+			case 6:
 				return &content{Kind: "whitelist", A: int64(r.Intn(nActors)), B: strconv.Itoa(int(perms[r.Intn(len(perms))]))}
 			case 7:
 				return &content{Kind: "unwhitelist", A: int64(r.Intn(nActors)), B: strconv.Itoa(int(perms[r.Intn(len(perms))]))}
